@@ -20,6 +20,7 @@
  Rp presence      : optional numeric fields are tested with `is None` / membership, never by truthiness (0 is a value).
  Rn arg roles     : a variable named like a parameter of the callee is handed to that parameter (no exchanged roles).
  R7 declared bands: a designed multi-band amplifier declares exactly the bands of the amplifiers it holds (unconditional overwrite).
+ R8 partitions     : spectrum-file partitions walked in ascending f_min; overlap test on (f_min - slot_width/2) (exact difference).
 """
 import ast
 
@@ -470,6 +471,48 @@ def r7_declared_bands(ctx):
     ctx.need('R7.declared-bands', 1)
 
 
+
+def r8_partitions(ctx):
+    """R8: the carriers of a spectrum file are the carriers it declares: partitions are walked in ascending f_min and a partition
+    whose first carrier would overlap the last carrier of the previous one is rejected - the test compares the previous
+    partition's maximum occupation with (f_min - slot_width / 2) of the next one (exact normal form of the difference), and the
+    maximum occupation recorded is that of the partition just handled"""
+    from ..vg import State
+    repo = ctx.repo
+    f = repo.func('gnpy.tools.json_io', '_spectrum_from_json')
+    loops = [n for n in walk_no_nested(f.node) if isinstance(n, ast.For)]
+    srt = [c for c in calls_to(f, {'sorted'}) if "['f_min']" in ast.unparse(c)]
+    ctx.check('R8.partitions', f'{site(f)} ascending', len(srt) == 1 and bool(loops) and srt[0].lineno < loops[0].lineno, key(f, 'sorted'),
+              'the partitions are not walked in ascending f_min')
+    ev = Evaluator(repo, f)
+    tests = [n for n in walk_no_nested(f.node) if isinstance(n, ast.If) and any(isinstance(x, ast.Raise) for x in n.body) and
+             'slot_width' in ast.unparse(n.test)]
+    ok = False
+    det = ''
+    if len(tests) == 1 and isinstance(tests[0].test, ast.Compare) and len(tests[0].test.ops) == 1 and loops:
+        t = tests[0].test
+        lp = loops[0]
+        part = [e.id for e in ast.walk(lp.target) if isinstance(e, ast.Name)][-1]
+        names = {x.id for x in ast.walk(t) if isinstance(x, ast.Name)} - {part}
+        st = State({nm: Rat.sym(nm) for nm in names | {part}})
+        try:
+            le, ri = ev.ev(t.left, st), ev.ev(t.comparators[0], st)
+        except CannotAnalyse:
+            le = ri = None
+        if isinstance(le, Rat) and isinstance(ri, Rat) and len(names) == 1:
+            prev = Rat.sym(names.pop())
+            fmin = ev.ev(ast.parse(f"{part}['f_min']", mode='eval').body, st)
+            sw = ev.ev(ast.parse(f"{part}['slot_width']", mode='eval').body, st)
+            want = prev - fmin + sw * (C(1) / C(2))              # > 0  <=>  overlap
+            d = (ri - le) if isinstance(t.ops[0], (ast.Lt, ast.LtE)) else ((le - ri) if isinstance(t.ops[0], (ast.Gt, ast.GtE)) else None)
+            det = vkey(d)[:160] if d is not None else ''
+            ok = d is not None and d.eq(want) and isinstance(t.ops[0], (ast.Lt, ast.Gt))
+    ctx.check('R8.partitions', f'{site(f)} overlap test', ok, key(f, 'overlap'),
+              'a partition is not rejected exactly when the previous partition reaches beyond (f_min - slot_width / 2) of its first carrier: '
+              'two declared carriers could share a frequency and one of them silently disappear', det)
+    ctx.need('R8.partitions', 2)
+
+
 from ..memo import rule_for as _memo_rule
 
 RULES_MEMO = ('Rm.memo', _memo_rule('C07', 'the band of another amplifier set would be used'))
@@ -480,4 +523,4 @@ from ..presence import rule_for as _presence_rule
 RULES_PRESENCE = ('Rp.presence', _presence_rule('C07', 'a legal zero would be read as missing'))
 
 RULES = [('R1.construction', r1_construction), ('R2.mux', r2_mux), ('R3.filter', r3_filter), ('R4.multiband', r4_multiband),
-         ('R5.carriers', r5_carriers), ('R6.in-band', r6_in_band), RULES_MEMO, RULES_PRESENCE, ('Rn.arg-roles', rn_arg_roles), ('R7.declared-bands', r7_declared_bands)]
+         ('R5.carriers', r5_carriers), ('R6.in-band', r6_in_band), RULES_MEMO, RULES_PRESENCE, ('Rn.arg-roles', rn_arg_roles), ('R7.declared-bands', r7_declared_bands), ('R8.partitions', r8_partitions)]
